@@ -142,6 +142,8 @@ def rule_split(ctx, F, rule="R1", ST=ST, SK=SK, KF="mina_core::timeline::Keyfram
     kf_time = {f["ty"]: f["name"] for f in F.adt(KF)["variants"][0]["fields"]}
     n_body = n_epi = 0
     for p in paths:
+        if p.outcome == "panic" and any(e.get("assert_predicate") for e in p.events):
+            continue        # the failing side of an assertion (`debug_assert!(result.is_consistent())`): C20 audits it
         pushes = calls(p, lambda e: e["fn"]["name"] == "push" and "Vec" in e["callee"])
         nexts = calls(p, lambda e: e["fn"]["name"] == "next")
         took = None
